@@ -38,7 +38,7 @@ InvRoundTrip == st = "val" => (Valid(Ty, v) /\ RoundTripC(Ty, v) /\ LayoutAgrees
 InvPrefixFree == (st = "pair" /\ ~HasRest(Ty)) => PrefixFreeC(Ty, v, w)
 InvStrict == st = "mut" => StrictOn(Ty, m.in)
 \* classes that can never be valid
-InvRejected == (st = "mut" /\ ~HasRest(Ty) /\ m.cls \in {"trunc_at", "trunc_in", "disc", "nonmin", "map_swap", "map_dup", "frame_tag"})
+InvRejected == (st = "mut" /\ ~HasRest(Ty) /\ m.cls \in {"trunc_at", "trunc_in", "disc", "nonmin", "map_swap", "map_dup", "map_dup2", "frame_tag"})
                => ~Dec(Ty, m.in).ok
 InvPadBits == (st = "mut" /\ m.cls = "pad_bits" /\ C % 8 # 0) => ~Dec(Ty, m.in).ok
 \* the unmutated encoding and the encoding followed by a stray byte decode to v on exactly the encoded bytes
